@@ -16,7 +16,16 @@ def main():
     if alt:
       cmd = cmd.replace('cd /repo', 'cd ' + alt)
       env['PYTHONPATH'] = alt
+    repo = alt or '/repo'
+    def untracked():
+        o = subprocess.run(['git', '-C', repo, 'ls-files', '--others', '--exclude-standard'], stdout=subprocess.PIPE, text=True).stdout
+        return set(o.split('\n')) - {''}
+    before = untracked()
     r = subprocess.run(cmd, shell=True, env=env, stdout=subprocess.PIPE, stderr=subprocess.STDOUT, text=True)
+    # the suite writes translated *.v files into its working directory: remove what it left behind
+    for f in untracked() - before:
+        try: os.remove(os.path.join(repo, f))
+        except OSError: pass
     passed = set()
     for tc in ET.parse(xml).getroot().iter('testcase'):
         bad = any(ch.tag in ('failure', 'error', 'skipped') for ch in tc)
